@@ -256,11 +256,13 @@ func opD3x(level, vec string, nilRecv bool, withFlags bool) string {
 			d := dump3(level, recv, nil, nil)
 			out += " " + d
 			// C15: the same queries again, in reverse order of levels first, must see the same object
-			if d2 := dump3(level, recv, nil, nil); d2 == d {
+			d2 := dump3(level, recv, nil, nil)
+			if d2 == d {
 				out += " q2=1"
 			} else {
 				out += " q2=0"
 			}
+			out += " vq=" + viewsSame(level, d, d2)
 			if withFlags && r != nil && err == nil {
 				out += flags3(level, d)
 			}
@@ -284,11 +286,13 @@ func opD3x(level, vec string, nilRecv bool, withFlags bool) string {
 			d := dump3(level, recv.BaseMetrics(), recv, nil)
 			out += " " + d
 			// C15: the same queries again, in reverse order of levels first, must see the same object
-			if d2 := dump3(level, recv.BaseMetrics(), recv, nil); d2 == d {
+			d2 := dump3(level, recv.BaseMetrics(), recv, nil)
+			if d2 == d {
 				out += " q2=1"
 			} else {
 				out += " q2=0"
 			}
+			out += " vq=" + viewsSame(level, d, d2)
 			if withFlags && r != nil && err == nil {
 				out += flags3(level, d)
 			}
@@ -312,11 +316,13 @@ func opD3x(level, vec string, nilRecv bool, withFlags bool) string {
 			d := dump3(level, recv.BaseMetrics(), recv.TemporalMetrics(), recv)
 			out += " " + d
 			// C15: the same queries again, in reverse order of levels first, must see the same object
-			if d2 := dump3(level, recv.BaseMetrics(), recv.TemporalMetrics(), recv); d2 == d {
+			d2 := dump3(level, recv.BaseMetrics(), recv.TemporalMetrics(), recv)
+			if d2 == d {
 				out += " q2=1"
 			} else {
 				out += " q2=0"
 			}
+			out += " vq=" + viewsSame(level, d, d2)
 			if withFlags && r != nil && err == nil {
 				out += flags3(level, d)
 			}
@@ -348,11 +354,13 @@ func opD2x(level, vec string, nilRecv bool, withFlags bool) string {
 			d := dump2(recv, nil, nil)
 			out += " " + d
 			// C15: the same queries again, in reverse order of levels first, must see the same object
-			if d2 := dump2(recv, nil, nil); d2 == d {
+			d2 := dump2(recv, nil, nil)
+			if d2 == d {
 				out += " q2=1"
 			} else {
 				out += " q2=0"
 			}
+			out += " vq=" + viewsSame(level, d, d2)
 			if withFlags && r != nil && err == nil {
 				out += flags2(level, d)
 			}
@@ -376,11 +384,13 @@ func opD2x(level, vec string, nilRecv bool, withFlags bool) string {
 			d := dump2(recv.BaseMetrics(), recv, nil)
 			out += " " + d
 			// C15: the same queries again, in reverse order of levels first, must see the same object
-			if d2 := dump2(recv.BaseMetrics(), recv, nil); d2 == d {
+			d2 := dump2(recv.BaseMetrics(), recv, nil)
+			if d2 == d {
 				out += " q2=1"
 			} else {
 				out += " q2=0"
 			}
+			out += " vq=" + viewsSame(level, d, d2)
 			if withFlags && r != nil && err == nil {
 				out += flags2(level, d)
 			}
@@ -404,11 +414,13 @@ func opD2x(level, vec string, nilRecv bool, withFlags bool) string {
 			d := dump2(recv.BaseMetrics(), recv.TemporalMetrics(), recv)
 			out += " " + d
 			// C15: the same queries again, in reverse order of levels first, must see the same object
-			if d2 := dump2(recv.BaseMetrics(), recv.TemporalMetrics(), recv); d2 == d {
+			d2 := dump2(recv.BaseMetrics(), recv.TemporalMetrics(), recv)
+			if d2 == d {
 				out += " q2=1"
 			} else {
 				out += " q2=0"
 			}
+			out += " vq=" + viewsSame(level, d, d2)
 			if withFlags && r != nil && err == nil {
 				out += flags2(level, d)
 			}
@@ -459,6 +471,25 @@ func nth(csv string, i int) string {
 	return "?"
 }
 
+// viewsSame: after every query of the object (the first dump), do the lower-level views still give
+// the same score, severity and encoding (C14: the views must not depend on what was queried before)
+func viewsSame(level, d, d2 string) string {
+	a, b := kvOf(d), kvOf(d2)
+	L := lvlIdx(level)
+	if L == 0 {
+		return "-"
+	}
+	r := ""
+	for l := 0; l < L; l++ {
+		if nth(a["s"], l) == nth(b["s"], l) && nth(a["sv"], l) == nth(b["sv"], l) && nth(a["enc"], l) == nth(b["enc"], l) {
+			r += "1"
+		} else {
+			r += "0"
+		}
+	}
+	return r
+}
+
 var lvls = []string{"B", "T", "E"}
 
 func lvlIdx(level string) int {
@@ -479,7 +510,7 @@ func flagsGeneric(level, d string, dec func(level, vec string, nilRecv bool) str
 	encL := strings.SplitN(nth(m["enc"], L), "|", 2)[0]
 	rt := "0"
 	re := dec(level, unhx(encL), false)
-	if strings.HasPrefix(re, "r=1 e=- ") && dropKey(dropKey(strings.TrimPrefix(re, "r=1 e=- "), "n"), "q2") == dropKey(d, "n") {
+	if strings.HasPrefix(re, "r=1 e=- ") && dropKey(dropKey(dropKey(strings.TrimPrefix(re, "r=1 e=- "), "n"), "q2"), "vq") == dropKey(d, "n") {
 		rt = "1"
 	}
 	pv := ""
